@@ -996,6 +996,9 @@ func (t *TableCache) Populate(tableUpdates ovsdb.TableUpdates) error {
 		tCache := t.cache[table]
 		for uuid, row := range tu {
 			t.logger.V(5).Info("processing update", "table", table, "uuid", uuid)
+			if row == nil {
+				return fmt.Errorf("update of row %s in table %s is null", uuid, table)
+			}
 			update := updates.ModelUpdates{}
 			current := tCache.cache[uuid]
 			if row.Old != nil && current == nil {
@@ -1026,6 +1029,9 @@ func (t *TableCache) Populate2(tableUpdates ovsdb.TableUpdates2) error {
 		tCache := t.cache[table]
 		for uuid, row := range tu {
 			t.logger.V(5).Info("processing update", "table", table, "uuid", uuid)
+			if row == nil {
+				return fmt.Errorf("update of row %s in table %s is null", uuid, table)
+			}
 			update := updates.ModelUpdates{}
 			current := tCache.cache[uuid]
 			if row.Initial == nil && row.Insert == nil && current == nil {
